@@ -5,7 +5,7 @@ C19 driver.  Case lines (shared with harness/c19/c19.c), one real call of the co
   wbegin <max> | wread | wend      ONE wait step by step: until its doorbell read / until the read is done / until it
                                    returns; posts and wake-ups of other threads may come in between
   qnew <cap> <maxmsg> <flags> | enq <producer> <value> <size> | deq <bufsize> | qstat | qclear
-  wnew <w> hold|run | wstate <w> | wrelease <w> | wstep <w> | wquit <w> | wstop <w> | wjoin <w> <ms> | wdestroy <w>
+  wnew <w> hold|run|race | wstate <w> | wrelease <w> | wstep <w> | wquit <w> | wstop <w> | wjoin <w> <ms> | wdestroy <w>
   tinit | tstart <ms> | tstop | tactive | tsleep <ms> | tticks | tafter | tcleanup
   mt <kind> <n>*        real multi-thread run, deterministic verdict line
   hbrace <ms>           (TSan build only) the real heartbeat_timer_callback on the real timer thread against the
@@ -35,8 +35,9 @@ def parseCmd (line : String) : Option Cmd :=
   | ["deq", b] => do some (.deq (← b.toNat?))
   | ["qstat"] => some .qstat
   | ["qclear"] => some .qclear
-  | ["wnew", w, "hold"] => do some (.wnew (← w.toNat?) true)
-  | ["wnew", w, "run"] => do some (.wnew (← w.toNat?) false)
+  | ["wnew", w, "hold"] => do some (.wnew (← w.toNat?) .hold)
+  | ["wnew", w, "run"] => do some (.wnew (← w.toNat?) .run)
+  | ["wnew", w, "race"] => do some (.wnew (← w.toNat?) .race)
   | ["wstate", w] => do some (.wstate (← w.toNat?))
   | ["wrelease", w] => do some (.wrelease (← w.toNat?))
   | ["wstep", w] => do some (.wstep (← w.toNat?))
@@ -86,7 +87,8 @@ def parseEv (line : String) : Option Ev :=
   | ["qstat", a, b, c, d, h, t, e, f] => do
     some (.qstat (← a.toNat?) (← b.toNat?) (← c.toNat?) (← d.toNat?) (← h.toNat?) (← t.toNat?) (← parseBit e) (← parseBit f))
   | ["qclear"] => some .qclear
-  | ["wnew", w, "ok"] => do some (.wnew (← w.toNat?))
+  | ["wnew", w, "ok"] => do some (.wnew (← w.toNat?) false)
+  | ["wnew", w, "finished"] => do some (.wnew (← w.toNat?) true)
   | ["wstate", w, "RUNNING"] => do some (.wstate (← w.toNat?) .running)
   | ["wstate", w, "STOPPED"] => do some (.wstate (← w.toNat?) .stopped)
   | ["wrelease", w, "ok"] => do some (.wrelease (← w.toNat?) true)
